@@ -3,7 +3,19 @@
 
 mod common;
 mod c01;
+mod c02;
+mod c04;
 mod c06;
+mod c07;
+mod c10;
+mod c11;
+mod c12;
+mod c13;
+mod c14;
+mod c15;
+mod c16;
+mod c18;
+mod c19;
 
 use common::*;
 
@@ -54,6 +66,7 @@ fn main() {
     }
     let mut log = Log::new(&cfg);
     match cfg.prop.as_str() {
+        "noop" => return,
         "list" => {
             for r in all_roots() {
                 println!("{}", r.name());
@@ -61,10 +74,26 @@ fn main() {
             return;
         }
         "C01" => c01::run(&cfg, &mut log),
+        "C02" => c02::run_c02(&cfg, &mut log),
+        "C03" => c02::run_c03(&cfg, &mut log),
+        "C04" => c04::run(&cfg, &mut log),
         "C06" => {
             c06::run(&cfg, &mut log);
             c06::check_corpus(&cfg, &mut log, "/verif/corpus/golden.tsv");
         }
+        "C07" => c07::run(&cfg, &mut log),
+        "C10" => c10::run(&cfg, &mut log),
+        "C11" => c11::run(&cfg, &mut log),
+        "C12" => c12::run(&cfg, &mut log),
+        "C13" => {
+            c13::run(&cfg, &mut log);
+            c13::run_seq(&cfg, &mut log);
+        }
+        "C14" => c14::run(&cfg, &mut log),
+        "C15" => c15::run(&cfg, &mut log),
+        "C16" => c16::run(&cfg, &mut log),
+        "C18" => c18::run(&cfg, &mut log),
+        "C19" => c19::run(&cfg, &mut log),
         "corpus-write" => {
             c06::write_corpus(&cfg, cfg.out.as_deref().unwrap_or("/verif/corpus/golden.tsv"));
             return;
